@@ -1,2 +1,20 @@
 #!/bin/sh
-exit 0
+# Build the framework offline from files on disk: harness (against /repo's working tree), generated Lean
+# tables, all Lean modules (model, lemmas, property theorems) and the compiled driver.
+set -e
+cd "$(dirname "$0")"
+export PATH="/opt/veriftools/lean/bin:$HOME/.cargo/bin:$PATH"
+export CARGO_NET_OFFLINE=true
+(cd harness && cargo build --offline 2>&1 | tail -2)
+OUT=$(cd harness && cargo build --offline --message-format=json 2>/dev/null | python3 -c "
+import sys, json
+o = None
+for l in sys.stdin:
+    try: m = json.loads(l)
+    except Exception: continue
+    if m.get('reason') == 'build-script-executed' and 'owlchess_base' not in m.get('package_id','').split('#')[-1] and 'owlchess' in m.get('package_id',''):
+        o = m.get('out_dir')
+print(o)")
+python3 tools/translate.py --out-dir "$OUT" --dest lean/OwlModel/Gen
+cd lean
+lake build owldrv OwlModel 2>&1 | tail -3
